@@ -64,6 +64,10 @@ type normalizer struct {
 	// function-typed parameters of a helper being inlined whose argument is a method value `x.m` of a stable
 	// receiver: calls of the parameter in the inlined body are spelled `<temp>.m(..)` (funcParamSubst)
 	subst map[types.Object]string
+	// normalize_tables.go: parameters of the helper being inlined that are bound to an immutable table of functions
+	// at the site being expanded, and the tables found so far
+	tables    map[types.Object]*funcTable
+	tableMemo map[*types.Var]*funcTable
 }
 
 type textEdit struct {
@@ -349,7 +353,7 @@ func (nz *normalizer) findSite(info *types.Info, s ast.Stmt) (site *inlineSite, 
 			return false
 		case *ast.CallExpr:
 			// a new helper: its receiver and arguments are bound, in order, by the expansion itself
-			if cal := typeutil.Callee(info, x); cal != nil && nz.liftable(cal) { // [std] was isNewHelper
+			if cal := nz.calleeOf(info, x); cal != nil && nz.liftable(cal) { // [std] was isNewHelper; [tables] calleeOf
 				first = x
 				firstPath = append([]ast.Node{}, path...)
 				path = path[:len(path)-1]
@@ -390,7 +394,7 @@ func (nz *normalizer) findSite(info *types.Info, s ast.Stmt) (site *inlineSite, 
 	if first == nil {
 		return nil, "", false
 	}
-	callee := typeutil.Callee(info, first)
+	callee := nz.calleeOf(info, first)
 	if callee == nil || !nz.liftable(callee) { // [std] was isNewHelper
 		return nil, "", false
 	}
@@ -489,6 +493,7 @@ func (nz *normalizer) bodyText(callee types.Object, label string, results []stri
 	edits := nz.stmtEdits(pk, file, d.Body)
 	// [std] fix: a closure of the callee whose calls were inlined stays "used" in the inlined copy as well
 	edits = append(edits, nz.closureKeepEdits(d.Body.Pos(), d.Body.End())...)
+	edits = append(edits, nz.tableRespell(pk, d.Body)...) // [tables]
 	if len(nz.subst) > 0 {
 		ast.Inspect(d.Body, func(n ast.Node) bool {
 			if c, ok := n.(*ast.CallExpr); ok {
@@ -676,7 +681,10 @@ func (nz *normalizer) expansion(pk *packages.Package, file *ast.File, site *inli
 			}
 		}
 	}
+	// [tables] parameters bound to an immutable function table: calls through them are static calls in this body
+	unbind := nz.bindTables(pk, site, sig, tsig)
 	inner, okB := nz.bodyText(callee, id, temps)
+	unbind()
 	if !okB {
 		nz.Log = append(nz.Log, fmt.Sprintf("not inlined: %s (recursive)", objName(callee)))
 		return "", nil, false
